@@ -139,6 +139,15 @@ def pp_expr(e):
         return "case [%s]" % ", ".join("%s => %s" % (pp_expr(c), pp_expr(v)) for c, v in e[1])
     if k == "in":
         return "(%s | in %s..%s)" % (pp_expr(e[1]), pp_expr(e[2]), pp_expr(e[3]))
+    if k == "param":
+        return e[1]
+    if k == "call":
+        # ["call", fname, [positional args], {named: arg}, piped(bool)]
+        named = "".join(" %s:%s" % (n, pp_expr(a)) for n, a in sorted((e[3] or {}).items()))
+        args = [pp_expr(a) for a in e[2]]
+        if len(e) > 4 and e[4] and args:
+            return "(%s | %s%s%s)" % (args[-1], e[1], named, "".join(" " + a for a in args[:-1]))
+        return "(%s%s%s)" % (e[1], named, "".join(" " + a for a in args))
     if k == "agg":
         return "(%s %s)" % (e[1], pp_expr(e[2]) if e[2] is not None else "this")
     if k == "win":
@@ -162,6 +171,8 @@ def pp_items(items):
 
 def pp_source(src, indent):
     k = src["k"]
+    if k == "let" and src.get("module"):
+        return src["module"] + "." + pp_ident(src["name"])
     if k in ("table", "let"):
         return pp_ident(src["name"])
     if k == "lit":
@@ -233,8 +244,15 @@ def pp_program(prog, header=None):
     out = []
     if header:
         out.append(header)
+    for f in prog.get("funcs", []):
+        params = " ".join(f["params"]) + "".join(" %s:%s" % (n, pp_expr(d)) for n, d in f.get("named", []))
+        out.append("let %s = %s -> %s" % (f["name"], params.strip(), pp_expr(f["body"])))
+    mod = prog.get("module")
     for name, pipe in prog.get("lets", []):
-        out.append("let %s = (\n%s\n)" % (pp_ident(name), pp_pipeline(pipe, "  ")))
+        text = "let %s = (\n%s\n)" % (pp_ident(name), pp_pipeline(pipe, "  "))
+        if mod and name in mod["members"]:
+            text = "module %s {\n%s\n}" % (mod["name"], "\n".join("  " + l for l in text.split("\n")))
+        out.append(text)
     out.append(pp_pipeline(prog["main"]))
     return "\n".join(out) + "\n"
 
@@ -740,6 +758,7 @@ class Gen:
         r = self.rng
         t, sc = self.t_from()
         pipe = [t]
+        self.cuts = []
         w = self.p["weights"]
         kinds = list(w.keys())
         tries = 0
@@ -759,6 +778,10 @@ class Gen:
             if k == "sort" and r.random() < 0.5:
                 tt, sc = self.t_take(sc)
                 pipe.append(tt)
+            names = [c.name for c in sc.cols]
+            if sc.nwild == 0 and None not in names and len(set(names)) == len(names):
+                self.cuts.append({"at": len(pipe), "quals": sorted({c.qual for c in sc.cols if c.qual}),
+                                  "cols": [[c.name, c.ty] for c in sc.cols]})
         if must_know_frame and sc.nwild > 0 or (must_know_frame and any(c.name is None for c in sc.cols)):
             res = self.t_select(sc)
             if res:
@@ -777,7 +800,7 @@ class Gen:
             lets.append([name, pipe])
             self.lets.append((name, pipe, [c.clone(qual=None) for c in sc.cols]))
         main, sc = self.pipeline(r.randint(1, self.p["max_len"]))
-        return {"lets": lets, "main": main}
+        return {"lets": lets, "main": main, "cuts": self.cuts}
 
 
 DEFAULT_PROFILE = {
